@@ -653,6 +653,34 @@ func (c *c06ctx) ruleR4() {
 				}
 			}
 		})
+		// ... or the side of a test of a publisher predicate that can only be true when not paused
+		if region == nil {
+			Instrs(fn, func(in ssa.Instruction) {
+				iff, ok := in.(*ssa.If)
+				if !ok || region != nil {
+					return
+				}
+				cond, neg := iff.Cond, false
+				for {
+					u, isU := cond.(*ssa.UnOp)
+					if !isU || u.Op != token.NOT {
+						break
+					}
+					cond, neg = u.X, !neg
+				}
+				call, ok := cond.(*ssa.Call)
+				if !ok || call.Call.StaticCallee() == nil || !isModuleFn(call.Call.StaticCallee()) {
+					return
+				}
+				if trueImpliesFlagFalse(call.Call.StaticCallee(), c.pauseFlag) {
+					k := 0
+					if neg {
+						k = 1
+					}
+					region = iff.Block().Succs[k]
+				}
+			})
+		}
 		perHandle := map[string]bool{}
 		for _, w := range wcalls {
 			good := region != nil && (region == w.top.Block() || region.Dominates(w.top.Block()))
@@ -1105,6 +1133,22 @@ func (c *c06ctx) ruleR8() {
 		}
 		n++
 		r.Fn(FuncName(fn))
+		// who relies on it as "files are open": the forwarding methods named WritingIsActive (the
+		// guard of record-length changes) and the source's Stop; a predicate used only elsewhere
+		// (e.g. "are records being stored right now") may combine Active with the pause flag
+		sites, _ := p.staticCallSites(fn)
+		reliedOn := len(sites) == 0
+		usedBy := ""
+		for _, site := range sites {
+			top := site.Parent()
+			for top.Parent() != nil {
+				top = top.Parent()
+			}
+			if top.Name() == "WritingIsActive" || top.Name() == "Stop" || top.Name() == "ConfigurePulseLengths" {
+				reliedOn = true
+				usedBy = FuncName(top)
+			}
+		}
 		// every value that can be returned: direct results, or stores into the spilled result cell
 		var vals []ssa.Value
 		Instrs(fn, func(in ssa.Instruction) {
@@ -1147,6 +1191,11 @@ func (c *c06ctx) ruleR8() {
 				pure = false
 			}
 		}
+		if !pure && !reliedOn {
+			r.OK("C06.R8", FuncName(fn)+" returns the Active flag unaltered", p.Pos(fn.Pos()), "combines Active with other state, but is not what the stop step or the record-length guard ask")
+			continue
+		}
+		_ = usedBy
 		r.Check(pure, "C06.R8", FuncName(fn)+" returns the Active flag unaltered", p.Pos(fn.Pos()), "result is the Active field on every path",
 			"the predicate combines Active with something else: while files are open (Active) it can answer false, so the guard that refuses a change of record length during writing lets it through, and records of the new lengths are appended to files whose headers state the old ones")
 	}
@@ -1323,4 +1372,76 @@ func controlDependencesClosure(x *ssa.BasicBlock) []ctrl {
 	}
 	visit(x)
 	return out
+}
+
+// trueImpliesFlagFalse: the bool function h can return true only when the named bool field of its
+// receiver was tested (or read) false: every returned value is the negated flag, the constant
+// false, or a merge whose possibly-true inputs arrive from blocks on the flag-false side of a test
+// of the flag.
+func trueImpliesFlagFalse(h *ssa.Function, flag string) bool {
+	if h == nil || h.Blocks == nil {
+		return false
+	}
+	isFlag := func(v ssa.Value) bool {
+		_, f, _, ok := FieldOf(v)
+		return ok && f == flag
+	}
+	// blocks that are only reached with the flag false
+	var falseSide []*ssa.BasicBlock
+	Instrs(h, func(in ssa.Instruction) {
+		iff, ok := in.(*ssa.If)
+		if !ok {
+			return
+		}
+		if isFlag(iff.Cond) {
+			falseSide = append(falseSide, iff.Block().Succs[1])
+		}
+		if u, ok := iff.Cond.(*ssa.UnOp); ok && u.Op == token.NOT && isFlag(u.X) {
+			falseSide = append(falseSide, iff.Block().Succs[0])
+		}
+	})
+	onFalseSide := func(b *ssa.BasicBlock) bool {
+		for _, fs := range falseSide {
+			if len(fs.Preds) == 1 && (fs == b || fs.Dominates(b)) {
+				return true
+			}
+		}
+		return false
+	}
+	var okVal func(v ssa.Value, at *ssa.BasicBlock, d int) bool
+	okVal = func(v ssa.Value, at *ssa.BasicBlock, d int) bool {
+		if d > 6 {
+			return false
+		}
+		if cst, ok := v.(*ssa.Const); ok && cst.Value != nil && cst.Value.ExactString() == "false" {
+			return true
+		}
+		if u, ok := v.(*ssa.UnOp); ok && u.Op == token.NOT && isFlag(u.X) {
+			return true
+		}
+		if at != nil && onFalseSide(at) {
+			return true
+		}
+		if ph, ok := v.(*ssa.Phi); ok {
+			for i, e := range ph.Edges {
+				if !okVal(e, ph.Block().Preds[i], d+1) {
+					return false
+				}
+			}
+			return len(ph.Edges) > 0
+		}
+		return false
+	}
+	all, n := true, 0
+	Instrs(h, func(in ssa.Instruction) {
+		ret, ok := in.(*ssa.Return)
+		if !ok {
+			return
+		}
+		n++
+		if len(ret.Results) != 1 || !okVal(ret.Results[0], ret.Block(), 0) {
+			all = false
+		}
+	})
+	return all && n > 0
 }
